@@ -2,7 +2,27 @@
 
 Tie D: every matrix of the real GraphProcessorMixin is compared entry by entry with the model
 (`Femio/Model/GraphOps.lean` through `c13.*` driver commands).  Oracle: brute-force definitions
-evaluated in Python on the public attributes (nodes.ids, elements.ids, elements.data)."""
+evaluated in Python on the public attributes (nodes.ids, elements.ids, per-type connectivity).
+
+How a mesh is checked (round-3 lessons C, D, E, A):
+* ALL (matrix, option) combinations are evaluated in a shuffled sequence ON ONE LIVE OBJECT, with repeats and with
+  varying call spellings (positional / keyword / default omitted / keyword order) - the methods are lru_cached,
+  call each other with particular spellings, and the caches have size 1-2, so the order and the spelling decide which
+  cached matrix a call sees;
+* a sample of the calls is re-evaluated as the FIRST query of a freshly built equal object and compared;
+* every returned matrix is kept and compared again with its value at return when the sequence ends (a later query
+  must not modify a matrix handed out earlier), the user data of the object (ids, coordinates, connectivity) is
+  compared bit-exactly after every call;
+* part of the objects reach their final content through public in-place edits of the connectivity BEFORE the first
+  query (`elements[t].data[r, c] = n`, data setter, `.loc[[id]].data = row`, `elements.update({t: attr})`): the
+  expectation is the object's current public state, cross-checked by fresh objects built from the same content;
+* generators: stratified id style x storage-order class (incl. contiguous-with-offset and gapped small id ranges),
+  disjoint unions of components with isolated single elements / isolated nodes, element ids interleaving the types,
+  blocked by type or equal to node ids."""
+import threading
+import traceback
+import warnings
+
 import numpy as np
 
 from . import common as C
@@ -11,50 +31,65 @@ from . import meshgen as mg
 PROP = 'C13'
 LEAN_MODULES = ['Femio.Props.C13']
 THEOREMS = ['C13_incidence', 'C13_incidence_order1', 'C13_isSecond_table', 'C13_adjacency_elem', 'C13_adjacency_node',
-            'nHopAuxM_refines', 'C13_nhop_reach', 'C13_laplacian_rowsum', 'C13_laplacian_offdiag', 'C13_laplacian_diag',
+            'nHopAuxM_refines', 'C13_nhop_reach', 'C13_nhop_mono', 'C13_nhop_selfloop_diag', 'C13_nhop_step',
+            'C13_nhop_step_selfloops', 'C13_nhop_step_noloop_counterexample',
+            'C13_memo_history', 'C13_memo_history_fresh', 'C13_memo_wrong_key_counterexample',
+            'C13_laplacian_rowsum', 'C13_laplacian_offdiag', 'C13_laplacian_diag',
             'C13_edge_gradient', 'C13_edge_gradient_undirected', 'C13_e2v', 'C13_e2v_selfloop',
             'C13_e2v_isolated_vertex_column']
 PARTIAL = ['C13_e2v needs "every vertex has its self loop" (no unreferenced node in nodal mode); the code adds a spurious '
            'column per isolated node (C13_e2v_isolated_vertex_column) - outside the property\'s quantifier, reported as a note',
            'order of the rows of the edge-gradient matrix and of the columns of e2v follows scipy\'s COO order, which the '
-           'model does not reproduce: compared as sets / multisets, as the property states them']
-RULE = ('seeded meshes: conforming geometric (tet, hex, mixed hex+prism+pyr, tet2 by promotion; voids => several components) '
-        'and combinatorial (arbitrary connectivity, types incl. tet2/hex2) with dense/sparse/large/huge/prefix ids in '
-        'ascending/descending/shuffled storage order, with and without unreferenced nodes; per mesh: incidence and both '
-        'adjacencies (order1_only on/off), n-hop (both modes, hops 1-4, self loops on/off), Laplacian, edge gradient, e2v; '
-        'a case = one (mesh, matrix, options); non-trivial = the matrix has at least one off-diagonal entry')
+           'model does not reproduce: compared as sets / multisets, as the property states them',
+           'C13_memo_history is about an abstract memo table (any key -> value store filled only with results of the pure '
+           'function): the lru_cache machinery of femio itself is exercised by the live-object sequences, not modelled '
+           '(C19 models it)']
+RULE = ('seeded meshes: conforming geometric (tet, hex, mixed hex+prism+pyr, tet2 by promotion; voids => several components), '
+        'combinatorial (arbitrary connectivity, types incl. tet2/hex2) and disjoint unions of 2-4 such components with isolated '
+        'single elements and isolated nodes; node ids stratified over id style (dense, sparse, large, huge, prefix, '
+        'contiguous-with-offset, gapped small ranges) x storage order class (asc, desc, shuffled, midshuf, swap2); element ids '
+        'random / interleaving the types / blocked by type / equal to node ids; per mesh ALL of incidence, both adjacencies '
+        '(direct and through calculate_adjacency_matrix), n-hop (both modes, hops 1-3 quick / 1-4 thorough, self loops on/off), '
+        'Laplacian, edge gradient, e2v x order1_only are evaluated in a shuffled sequence with repeats and random call '
+        'spellings on ONE live object, each result compared with its brute-force definition and with the model; a sample is '
+        're-evaluated as the first query of a fresh equal object; returned matrices are re-compared at the end of the '
+        'sequence and the user data after every call; one object in four reaches its content through public in-place '
+        'connectivity edits before the first query; a case = one (mesh, history prefix, matrix, options, spelling); '
+        'non-trivial = the matrix has at least one off-diagonal entry')
 ASSUMPTIONS = ['scipy.sparse Boolean product = OR of ANDs (reproduced by the model, validated by this correspondence)',
-               'second-order types other than tet2 / hex2 raise in to_first_order and are not generated']
+               'second-order types other than tet2 / hex2 raise in to_first_order and are not generated',
+               'an object whose connectivity was edited through public means (in place through elements[t].data, the data '
+               'setter, .loc[[id]].data, elements.update({t: attr})) BEFORE any graph query is "a mesh" of the quantifier; its '
+               'content is what elements[t].ids / elements[t].data show at the time of the first query (edits BETWEEN '
+               'queries are C19\'s open finding F11 and are not made here)',
+               'a matrix handed out by an earlier call must still have the entries it had at return when the sequence ends '
+               '(compared by value after densifying: scipy itself may canonicalise the index arrays of an operand in place)',
+               'the diagonal entry of the self-loop-free n-hop matrix of a vertex WITHOUT self loop (unreferenced node) and the '
+               'e2v columns of such vertices are not stated by the property: masked / labelled stream']
+
+MODES = ('elemental', 'nodal')
+# kind -> (method, parameters in positional order with defaults, keyword-only)
+SIG = {
+    'inc': ('calculate_incidence_matrix', (('order1_only', False),), False),
+    'adj:elemental': ('calculate_adjacency_matrix_element', (('order1_only', False),), False),
+    'adj:nodal': ('calculate_adjacency_matrix_node', (('order1_only', False),), False),
+    'adjg': ('calculate_adjacency_matrix', (('mode', 'elemental'), ('order1_only', False)), True),
+    'lap': ('calculate_laplacian_matrix', (('mode', 'nodal'), ('order1_only', False)), False),
+    'grad': ('calculate_edge_gradient_matrix', (('mode', 'nodal'), ('order1_only', False)), False),
+    'nhop': ('calculate_n_hop_adj', (('mode', 'elemental'), ('n_hop', 1), ('include_self_loop', True),
+                                     ('order1_only', False)), False),
+    'e2v': ('calculate_e2v_matrix', (('mode', 'elemental'), ('include_self_loop', False)), False),
+}
+WHAT = {'inc': 'incidence', 'adj': 'adjacency', 'adjg': 'adjacency', 'lap': 'laplacian', 'grad': 'edge-gradient',
+        'nhop': 'n-hop', 'e2v': 'e2v'}
 
 
 def dense(m):
     return np.asarray(m.todense()) if hasattr(m, 'todense') else np.asarray(m)
 
 
-def flat_elements(fd):
-    return [int(i) for i in fd.elements.ids], [[int(n) for n in d] for d in fd.elements.data]
-
-
 def first_order(t, conn):
     return conn[:4] if t == 'tet2' else conn[:8] if t == 'hex2' else conn
-
-
-def brute(fd, order1):
-    """incidence by definition from public attributes"""
-    eids, conns = flat_elements(fd)
-    types = [str(t) for t in fd.elements.types]
-    nids = [int(i) for i in fd.nodes.ids]
-    if order1:
-        conns = [first_order(t, c) for t, c in zip(types, conns)]
-        if any('2' in t for t in types):
-            corner = {n for c in conns for n in c}
-            nids = [i for i in nids if i in corner]
-    inc = np.zeros((len(nids), len(eids)), dtype=bool)
-    pos = {i: k for k, i in enumerate(nids)}
-    for j, c in enumerate(conns):
-        for n in c:
-            inc[pos[n], j] = True
-    return inc
 
 
 def reach(adj, hops):
@@ -67,186 +102,811 @@ def reach(adj, hops):
     return ret > 0
 
 
-def parse_pairs(t, shape):
-    n = t.nat()
-    m = np.zeros(shape, dtype=bool)
-    for _ in range(n):
-        a, b = t.nat(), t.nat()
-        m[a, b] = True
+# ------------------------------------------------------------------------------------------------ queries
+
+def q_what(q):
+    return WHAT[q[0]] + ('' if q[0] == 'inc' else '-' + q[1])
+
+
+def q_opts(q):
+    kind, mode, o1, hops, sl = q
+    if kind == 'nhop':
+        return {'n_hop': hops, 'include_self_loop': sl, 'order1_only': o1}
+    if kind == 'e2v':
+        return {'include_self_loop': sl}
+    if kind == 'adjg':
+        return {'order1_only': o1, 'via': 'calculate_adjacency_matrix'}
+    return {'order1_only': o1}
+
+
+def q_sig(q):
+    kind, mode = q[0], q[1]
+    return SIG[kind + ':' + mode] if kind == 'adj' else SIG[kind]
+
+
+def q_values(q):
+    kind, mode, o1, hops, sl = q
+    return {'mode': mode, 'order1_only': o1, 'n_hop': hops, 'include_self_loop': sl}
+
+
+def spell(r, q):
+    """one way of writing the call: number of positional arguments, names of the keyword arguments in order; an
+    argument equal to its default may be omitted (lru_cache keys differ between all of these)"""
+    _, params, kwonly = q_sig(q)
+    vals = q_values(q)
+    npos = 0 if kwonly else r.choice([0, 0, 1, len(params), r.randint(0, len(params))])
+    npos = min(npos, len(params))
+    kw = [n for n, d in params[npos:] if not (vals[n] == d and r.random() < .5)]
+    if len(kw) > 1 and r.random() < .3:
+        r.shuffle(kw)
+    return [npos, kw]
+
+
+def call(fd, q, sp):
+    meth, params, _ = q_sig(q)
+    vals = q_values(q)
+    npos, kw = sp
+    pos = [vals[n] for n, _ in params[:npos]]
+    with warnings.catch_warnings():
+        warnings.simplefilter('ignore')
+        return mg.quiet(getattr(fd, meth), *pos, **{n: vals[n] for n in kw})
+
+
+def spelled(q, sp):
+    meth, params, _ = q_sig(q)
+    vals = q_values(q)
+    npos, kw = sp
+    return meth + '(' + ', '.join([repr(vals[n]) for n, _ in params[:npos]] + [f'{n}={vals[n]!r}' for n in kw]) + ')'
+
+
+def queries(E, quick):
+    """every (matrix, options) the property talks about, for a mesh with expectation E"""
+    qs = []
+    hops = (1, 2, 3) if quick else (1, 2, 3, 4)
+    for o1 in (False, True):
+        qs.append(('inc', None, o1, None, None))
+        for mode in MODES:
+            off = E.offdiag(mode, o1)
+            qs.append(('adj', mode, o1, None, None))
+            # calculate_adjacency_matrix(mode='elemental') ignores order1_only (documented: "effective only when
+            # mode == 'nodal'"): asked with order1_only=True only where that cannot matter (first-order meshes)
+            if mode == 'nodal' or not o1 or not E.second:
+                qs.append(('adjg', mode, o1, None, None))
+            qs.append(('lap', mode, o1, None, None))
+            if off.any():        # no edge: np.concatenate([]) raises; the property speaks of the rows per edge
+                qs.append(('grad', mode, o1, None, None))
+            if mode == 'elemental' and o1 and E.second:
+                continue         # n-hop: the elemental adjacency ignores order1_only as well
+            for h in hops:
+                for sl in (True, False):
+                    qs.append(('nhop', mode, o1, h, sl))
+    for mode in MODES:
+        qs.append(('e2v', mode, None, None, False))   # include_self_loop=True raises AttributeError: unsupported option
+    return qs
+
+
+# ------------------------------------------------------------------------------------------------ expectation
+
+def public_blocks(fd):
+    return {t: [(int(e), [int(n) for n in c]) for e, c in zip(a.ids, a.data)] for t, a in fd.elements.items()}
+
+
+class Expect:
+    """brute-force definitions from the public state of an object (read BEFORE any query): node rows by storage
+    position (nodes.ids), element columns in the order of elements.ids, connectivity from the per-type blocks"""
+
+    def __init__(self, fd):
+        self.nids = [int(i) for i in fd.nodes.ids]
+        self.eids = [int(i) for i in fd.elements.ids]
+        by_id = {}
+        for t, a in fd.elements.items():
+            for e, c in zip(a.ids, a.data):
+                by_id[int(e)] = (t, [int(n) for n in c])
+        self.types = [by_id[e][0] for e in self.eids]
+        self.conns = [by_id[e][1] for e in self.eids]
+        self.second = any('2' in t for t in self.types)
+        self.B = {o1: self._incidence(o1) for o1 in (False, True)}
+        self.A = {}
+        self._reach, self._nontrivial = {}, {}
+        for o1 in (False, True):
+            B = self.B[o1].astype(int)
+            self.A['elemental', o1] = (B.T @ B) > 0
+            self.A['nodal', o1] = (B @ B.T) > 0
+
+    def _incidence(self, order1):
+        conns, nids = self.conns, self.nids
+        if order1:
+            conns = [first_order(t, c) for t, c in zip(self.types, conns)]
+            if self.second:
+                corner = {n for c in conns for n in c}
+                nids = [i for i in nids if i in corner]
+        inc = np.zeros((len(nids), len(self.eids)), dtype=bool)
+        pos = {i: k for k, i in enumerate(nids)}
+        for j, c in enumerate(conns):
+            for n in c:
+                inc[pos[n], j] = True
+        return inc
+
+    def adj(self, q):
+        kind, mode, o1 = q[0], q[1], q[2]
+        if mode == 'elemental' and kind in ('adjg', 'nhop', 'e2v'):
+            o1 = False      # these use calculate_adjacency_matrix_element() (see queries())
+        if kind == 'e2v':
+            o1 = False
+        return self.A[mode, bool(o1)]
+
+    def reach(self, q):
+        key = (q[1], self.adj(q) is self.A[q[1], True], q[3])
+        if key not in self._reach:
+            self._reach[key] = reach(self.adj(q), q[3])
+        return self._reach[key]
+
+    def offdiag(self, mode, o1):
+        A = self.A[mode, o1]
+        return A & ~np.eye(len(A), dtype=bool)
+
+
+def canon(q, raw):
+    """the observable of a result that the property talks about (a new object, never aliasing `raw`)"""
+    kind = q[0]
+    if kind in ('inc', 'adj', 'adjg'):
+        return np.array(dense(raw).astype(bool))
+    if kind in ('lap', 'nhop'):
+        return np.array(dense(raw).astype(int))
+    if kind == 'grad':
+        G = dense(raw).astype(int)
+        rows = []
+        for row in G:
+            p, m = np.flatnonzero(row == 1), np.flatnonzero(row == -1)
+            if len(p) != 1 or len(m) != 1 or np.count_nonzero(row) != 2:
+                return ('malformed-row', G.shape[1], [int(v) for v in row][:40])
+            rows.append((int(p[0]), int(m[0])))
+        return ('rows', G.shape[1], sorted(rows))
+    E = raw.tocoo()
+    cols_ok = sorted(E.col.tolist()) == list(range(E.shape[1])) and bool((np.asarray(E.data) == 1).all())
+    return ('e2v', tuple(int(v) for v in E.shape), sorted(int(v) for v in E.row), cols_ok)
+
+
+def same(a, b):
+    if isinstance(a, np.ndarray) or isinstance(b, np.ndarray):
+        return isinstance(a, np.ndarray) and isinstance(b, np.ndarray) and a.shape == b.shape and bool((a == b).all())
+    return a == b
+
+
+def brief(c):
+    if isinstance(c, np.ndarray):
+        return {'shape': list(c.shape), 'rows': c.astype(int).tolist()[:10]}
+    return [list(x)[:40] if isinstance(x, (list, tuple)) else x for x in c]
+
+
+def judge(E, q, c):
+    """(ok, isolated-vertex stream?)  -  does the canonical result equal the combinatorial definition?"""
+    kind, mode, o1, hops, sl = q
+    if kind == 'inc':
+        return same(c, E.B[bool(o1)]), False
+    Ab = E.adj(q)
+    n = len(Ab)
+    eye = np.eye(n, dtype=bool)
+    off = ~eye
+    if kind in ('adj', 'adjg'):
+        return same(c, Ab), False
+    if kind == 'lap':
+        if c.shape != (n, n):
+            return False, False
+        deg = (Ab & off).sum(axis=1)
+        return (bool((c.sum(axis=1) == 0).all()) and bool((c[off] == Ab[off].astype(int)).all())
+                and bool((np.diag(c) == -deg).all())), False
+    if kind == 'grad':
+        und = sorted((int(a), int(b)) for a, b in np.argwhere(Ab & off) if a < b)
+        return c == ('rows', n, und), False
+    if kind == 'nhop':
+        if c.shape != (n, n):
+            return False, False
+        want = E.reach(q).astype(int) - (0 if sl else eye.astype(int))
+        mask = np.ones((n, n), dtype=bool)
+        if not sl:
+            # a vertex without self loop (unreferenced node): its diagonal entry is not stated by the property
+            iso = np.flatnonzero(~np.diag(Ab))
+            mask[iso, iso] = False
+        return bool((c[mask] == want[mask]).all()), False
+    # e2v
+    directed = np.argwhere(Ab if sl else (Ab & off))
+    srcs = sorted(int(a) for a, _ in directed)
+    ok = c[0] == 'e2v' and c[3] and c[1] == (n, len(directed)) and c[2] == srcs
+    isolated = bool((~np.diag(Ab)).any())
+    return ok, (isolated and not sl)
+
+
+def nontrivial(E, q):
+    if q not in E._nontrivial:
+        if q[0] == 'inc':
+            v = bool(E.B[bool(q[2])].any())
+        else:
+            Ab = E.reach(q) if q[0] == 'nhop' else E.adj(q)
+            v = bool((Ab & ~np.eye(len(Ab), dtype=bool)).any())
+        E._nontrivial[q] = v
+    return E._nontrivial[q]
+
+
+# ------------------------------------------------------------------------------------------------ model
+
+def model_line(q):
+    kind, mode, o1, hops, sl = q
+    if kind == 'inc':
+        return f'c13.inc {int(o1)}'
+    if kind in ('adj', 'adjg'):
+        return f'c13.adj {mode} {int(bool(o1) and not (kind == "adjg" and mode == "elemental"))}'
+    if kind == 'lap':
+        return f'c13.lap {mode} {int(o1)}'
+    if kind == 'grad':
+        return f'c13.grad {mode} {int(o1)}'
+    if kind == 'nhop':
+        return f'c13.nhop {mode} {hops} {int(sl)} {int(o1)}'
+    return f'c13.e2v {mode} {int(sl)}'
+
+
+def model_canon(q, rep):
+    t = C.Toks(rep)
+    if t.tok() != 'ok':
+        raise RuntimeError(f'driver: {rep[:200]} for {model_line(q)}')
+    kind = q[0]
+    if kind == 'inc':
+        nN, nE = t.nat(), t.nat()
+        m = np.zeros((nN, nE), dtype=bool)
+        for _ in range(t.nat()):
+            a, b = t.nat(), t.nat()
+            m[a, b] = True
+        return m
+    if kind in ('adj', 'adjg'):
+        n = t.nat()
+        m = np.zeros((n, n), dtype=bool)
+        for _ in range(t.nat()):
+            a, b = t.nat(), t.nat()
+            m[a, b] = True
+        return m
+    if kind in ('lap', 'nhop'):
+        n = t.nat()
+        m = np.zeros((n, n), dtype=int)
+        for _ in range(t.nat()):
+            a, b, v = t.nat(), t.nat(), int(t.tok())
+            m[a, b] = v
+        return m
+    if kind == 'grad':
+        n = t.nat()
+        k = t.nat()
+        return ('rows', n, sorted((t.nat(), t.nat()) for _ in range(k)))
+    mn, k = t.nat(), t.nat()
+    return ('e2v', (mn, k), t.lst(t.nat), True)
+
+
+class ModelJob:
+    """all model requests of one mesh, answered by the driver while the real code runs"""
+
+    def __init__(self, ctx, enc, qs):
+        self.lines = sorted({model_line(q) for q in qs})
+        self.replies, self.err = None, None
+        self.enc = enc
+        self.t = None
+        if ctx.driver is not None:
+            self.t = threading.Thread(target=self._run, args=(ctx.driver,))
+            self.t.start()
+
+    def _run(self, driver):
+        try:
+            self.replies = dict(zip(self.lines, driver.ask_many([ln + ' ' + self.enc for ln in self.lines])))
+        except Exception as e:      # re-raised in the main thread
+            self.err = e
+
+    def wait(self):
+        if self.t is None:
+            return None
+        self.t.join()
+        if self.err is not None:
+            raise self.err
+        return self.replies
+
+
+# ------------------------------------------------------------------------------------------------ generators
+
+ID_STYLES = ['dense', 'sparse', 'large', 'huge', 'prefix', 'offset', 'gapped']
+ORDERS = ['asc', 'desc', 'shuf', 'midshuf', 'swap2', 'shuf']
+EID_STYLES = ['random', 'random', 'interleaved', 'typeblocked', 'typeblocked-rev', 'as-node-ids', 'gapped', 'offset']
+
+
+def small_ids(r, n, style):
+    """'sparse but small' id sets: `offset` = one contiguous range not starting at 1; `gapped` = two or three dense ranges
+    separated by gaps of about n (sums / differences / offsets of such ids collide where random sparse ids do not)"""
+    if style == 'offset':
+        k = r.choice([2, 3, n, n + 1, 2 * n, 100, 1000, 10 ** 6])
+        return list(range(k, k + n))
+    parts = r.randint(2, 3) if n >= 3 else 2 if n == 2 else 1
+    cuts = sorted(r.sample(range(1, n), parts - 1)) if n > 1 else []
+    sizes = [b - a for a, b in zip([0] + cuts, cuts + [n])]
+    ids, start = [], r.choice([1, 1, 2, n])
+    for s in sizes:
+        ids += list(range(start, start + s))
+        start += s + r.choice([n - 1, n, n + 1, s, 2 * n])
+    return ids
+
+
+def relabel_nodes(r, m, style):
+    """rank-preserving relabelling of the node ids (the storage-order class is kept)"""
+    old = sorted(i for i, _ in m['nodes'])
+    new = sorted(small_ids(r, len(old), style))
+    f = dict(zip(old, new))
+    m = dict(m)
+    m['nodes'] = [(f[i], p) for i, p in m['nodes']]
+    m['blocks'] = {t: [(e, [f[n] for n in c]) for e, c in b] for t, b in m['blocks'].items()}
+    m['id_style'] = style
     return m
 
 
-def parse_triples(t, n):
-    k = t.nat()
-    m = np.zeros((n, n), dtype=int)
-    for _ in range(k):
-        a, b, v = t.nat(), t.nat(), int(t.tok())
-        m[a, b] = v
+def relabel_elems(r, m, style):
+    """element ids: interleaving the types (round robin), blocked by type in / against ELEMENT_TYPES order, drawn from
+    the node ids, small gapped / offset ranges; the storage order inside a block stays as generated (shuffled)"""
+    if style == 'random':
+        return m
+    blocks = m['blocks']
+    n = sum(len(b) for b in blocks.values())
+    if style == 'as-node-ids':
+        pool = sorted(i for i, _ in m['nodes'])
+        ids = sorted(r.sample(pool, n)) if len(pool) >= n else list(range(1, n + 1))
+    elif style in ('gapped', 'offset'):
+        ids = sorted(small_ids(r, n, style))
+    else:
+        base = r.choice([1, 1, 7, 1000])
+        ids = list(range(base, base + n))
+    ts = list(blocks)
+    if style == 'typeblocked-rev':
+        slots = [t for t in reversed(ts) for _ in blocks[t]]
+    elif style == 'typeblocked':
+        slots = [t for t in ts for _ in blocks[t]]
+    elif style == 'interleaved':
+        left = {t: len(blocks[t]) for t in ts}
+        slots = []
+        while len(slots) < n:
+            for t in ts:
+                if left[t]:
+                    slots.append(t)
+                    left[t] -= 1
+    else:
+        slots = [t for t in ts for _ in blocks[t]]
+        r.shuffle(slots)
+    per = {t: [i for i, s in zip(ids, slots) if s == t] for t in ts}
+    out = {}
+    for t in ts:
+        r.shuffle(per[t])
+        out[t] = [(e, c) for e, (_, c) in zip(per[t], blocks[t])]
+    m = dict(m)
+    m['blocks'] = out
+    m['eid_style'] = style
     return m
+
+
+def gen_components(r, quick, id_style, order):
+    """disjoint union of 2-4 components: small combinatorial / geometric meshes, ISOLATED SINGLE ELEMENTS (sharing no
+    node with anything) and, sometimes, isolated nodes; the components interleave in node and element storage"""
+    parts = []
+    for _ in range(r.randint(2, 4)):
+        u = r.random()
+        if u < .45:
+            t = r.choice(['line', 'tri', 'quad', 'tet', 'tet2', 'pyr', 'prism', 'hex', 'hex2'])
+            parts.append(mg.gen_combinatorial(r, types=[t], n_nodes=mg.ARITY[t], max_elems=1, id_style='dense',
+                                              order='asc', unref=False))
+        elif u < .8:
+            parts.append(mg.gen_combinatorial(r, max_elems=3 if quick else 5, id_style='dense', order='asc', unref=False))
+        else:
+            p = mg.gen_geometric(r, max_cells=1 if quick else 2, jitter=False, voids=False, unref=False, id_style='dense',
+                                 order='asc')
+            parts.append(mg.promote_tet2(r, p) if p['kind'] == 'tet' and r.random() < .5 else p)
+    nodes, elems = [], []
+    for k, p in enumerate(parts):
+        f = {i: (k, i) for i, _ in p['nodes']}
+        nodes += [(f[i], xyz) for i, xyz in p['nodes']]
+        elems += [(t, (k, e), [f[n] for n in c]) for t, b in p['blocks'].items() for e, c in b]
+    n_unref = sum(p.get('n_unref', 0) for p in parts)
+    if r.random() < .3:
+        for j in range(r.randint(1, 2)):
+            nodes.append((('iso', j), (mg.F(90 + j), mg.F(90), mg.F(90))))
+            n_unref += 1
+    keys = [k for k, _ in nodes]
+    if id_style in ('offset', 'gapped'):
+        id_list = small_ids(r, len(keys), id_style)
+    else:
+        id_list, _ = mg.random_ids(r, len(keys), id_style)
+    r.shuffle(id_list)
+    idmap = dict(zip(keys, id_list))
+    keys, order = mg.order_ids(r, keys, idmap, order)
+    xyz = dict(nodes)
+    eids, _ = mg.random_ids(r, len(elems), r.choice(['dense', 'sparse', 'large']))
+    r.shuffle(eids)
+    r.shuffle(elems)
+    blocks = {}
+    for (t, _, c), e in zip(elems, eids):
+        blocks.setdefault(t, []).append((e, [idmap[n] for n in c]))
+    blocks = {t: blocks[t] for t in mg.ELEMENT_TYPES if t in blocks}
+    return {'kind': 'components:' + '+'.join(sorted(blocks)), 'order': order, 'id_style': id_style,
+            'nodes': [(idmap[k], xyz[k]) for k in keys], 'blocks': blocks, 'n_unref': n_unref, 'n_parts': len(parts)}
 
 
 def gen_mesh(ctx, k):
+    """mesh k of the run: node id style and storage-order class are STRATIFIED over k (every combination occurs in
+    every 42 consecutive meshes), everything else is random"""
     r = ctx.rng
+    id_style = ID_STYLES[k % len(ID_STYLES)]
+    order = ORDERS[k % len(ORDERS)]
+    base_style = id_style if id_style not in ('offset', 'gapped') else 'dense'
     u = r.random()
     mc = 2 if ctx.quick else 3
-    if u < .45:
-        m = mg.gen_geometric(r, max_cells=mc, jitter=False)
+    if u < .35:
+        m = mg.gen_geometric(r, max_cells=mc, jitter=False, id_style=base_style, order=order)
         if m['kind'] == 'tet' and r.random() < .5:
             m = mg.promote_tet2(r, m)
+    elif u < .75:
+        m = mg.gen_combinatorial(r, max_elems=ctx.n(8, 16), id_style=base_style, order=order)
     else:
-        m = mg.gen_combinatorial(r, max_elems=ctx.n(8, 16))
-    return m
+        return relabel_elems(r, gen_components(r, ctx.quick, id_style, order), r.choice(EID_STYLES))
+    if id_style in ('offset', 'gapped'):
+        m = relabel_nodes(r, m, id_style)
+    return relabel_elems(r, m, r.choice(EID_STYLES))
 
 
-def check_mesh(ctx, m, want_fail=True):
+# ------------------------------------------------------------------------------------------------ public edits (lesson A)
+
+EDIT_MEANS = ['inplace', 'setter', 'loc', 'update-block', 'parent-setter']
+
+
+def gen_edit(r, m):
+    """a plan [means, [[type, row, col, other node id], ...]]: the object is BUILT with `other` at these connectivity
+    positions and brought to the content of `m` by public edits before the first query"""
+    nids = [i for i, _ in m['nodes']]
+    cells = []
+    for t, b in m['blocks'].items():
+        for ri, (_, c) in enumerate(b):
+            if r.random() < .35:
+                ci = r.randrange(len(c))
+                cand = [n for n in nids if n not in c]
+                if cand:
+                    cells.append([t, ri, ci, r.choice(cand)])
+    if not cells:
+        return None
+    means = r.choice(EDIT_MEANS if len(m['blocks']) == 1 else EDIT_MEANS[:-1])
+    return [means, cells]
+
+
+def build(m, edit):
+    """the femio object of mesh m; with an edit plan: built from the perturbed connectivity, then edited to m"""
+    if not edit:
+        return mg.to_femio(m)
+    from femio import FEMAttribute
+    means, cells = edit
+    m0 = dict(m, blocks={t: [(e, list(c)) for e, c in b] for t, b in m['blocks'].items()})
+    for t, ri, ci, other in cells:
+        m0['blocks'][t][ri][1][ci] = other
+    fd = mg.to_femio(m0)
+    for t, b in m['blocks'].items():
+        mine = [x for x in cells if x[0] == t]
+        if not mine:
+            continue
+        arr = np.array([c for _, c in b])
+        a = fd.elements[t]
+        if means == 'inplace':
+            for _, ri, ci, _o in mine:
+                a.data[ri, ci] = arr[ri, ci]
+        elif means == 'setter':
+            a.data = arr
+        elif means == 'loc':
+            for ri in sorted({x[1] for x in mine}):
+                sub = a.loc[[b[ri][0]]]
+                sub.data = arr[[ri]]
+        elif means == 'update-block':
+            mg.quiet(fd.elements.update, {t: FEMAttribute(t, ids=np.array([e for e, _ in b]), data=arr, silent=True)})
+        elif means == 'parent-setter':
+            fd.elements.data = arr
+        else:
+            raise ValueError(means)
+    return fd
+
+
+# ------------------------------------------------------------------------------------------------ one mesh
+
+def userdata(fd):
+    """bit-exact snapshot of the user data of an object"""
+    out = {}
+
+    def put(name, a):
+        a = np.asarray(a)
+        if a.dtype == object:
+            out[name] = ('object', repr([np.asarray(x).tolist() for x in a]))
+        else:
+            out[name] = (a.dtype.str, a.shape, a.tobytes())
+    put('nodes.ids', fd.nodes.ids)
+    put('nodes.data', fd.nodes.data)
+    put('elements.ids', fd.elements.ids)
+    put('elements.data', fd.elements.data)
+    put('elements.types', np.asarray(fd.elements.types).astype(str))
+    for t, a in fd.elements.items():
+        put(f'elements[{t}].ids', a.ids)
+        put(f'elements[{t}].data', a.data)
+    return out
+
+
+def inside_femio(e):
+    return any(str(C.REPO) in f.filename for f in traceback.extract_tb(e.__traceback__))
+
+
+class Live:
+    """one live object and the history of graph queries made on it"""
+
+    def __init__(self, ctx, m, edit, E=None, label='live'):
+        self.ctx, self.m, self.edit, self.label = ctx, m, edit, label
+        self.fd = build(m, edit)
+        self.applied = public_blocks(self.fd) == {t: [(e, list(c)) for e, c in b] for t, b in m['blocks'].items()}
+        self.E = E if E is not None else Expect(self.fd)
+        self.user0 = userdata(self.fd)
+        self.user_reported = False
+        self.held = []      # (index in history, q, raw result, canonical value at return)
+        self.hist = []      # [q, spelling]
+
+    def step(self, q, sp):
+        """evaluate one query; returns ('ok' | 'raises' | 'malformed', canonical value or message, raw)"""
+        self.hist.append([list(q), sp])
+        try:
+            raw = call(self.fd, q, sp)
+        except Exception as e:
+            if not inside_femio(e):
+                raise
+            f = [f for f in traceback.extract_tb(e.__traceback__) if str(C.REPO) in f.filename][-1]
+            return 'raises', f'{type(e).__name__}: {e} in {f.filename.replace(str(C.REPO) + "/", "")}:{f.lineno} ({f.name})', None
+        try:
+            c = canon(q, raw)
+        except Exception as e:
+            return 'malformed', f'{type(e).__name__}: {e}', raw
+        self.held.append((len(self.hist) - 1, q, raw, c))
+        return 'ok', c, raw
+
+    def user_changed(self):
+        now = userdata(self.fd)
+        return sorted(k for k in set(now) | set(self.user0) if now.get(k) != self.user0.get(k))
+
+    def held_changed(self):
+        """earlier results that no longer have the value they had when they were returned"""
+        out = []
+        for i, q, raw, c in self.held:
+            try:
+                now = canon(q, raw)
+            except Exception as e:
+                now = ('uninterpretable', repr(e))
+            if not same(now, c):
+                out.append((i, q, c, now))
+        return out
+
+
+def check_mesh(ctx, m, plan=None):
+    """plan (replay): {'edit': ..., 'seq': [[q, spelling], ...], 'fresh': [indices]}; None = draw one"""
+    r = ctx.rng
     d = mg.describe(m)
-    fd = mg.to_femio(m)
+    d['eid_style'] = m.get('eid_style', 'random')
     enc = mg.enc_mesh(m)
-    second = any('2' in t for t in m['blocks'])
-    n_unref = m.get('n_unref', 0)
+    replaying = plan is not None
+    edit = plan.get('edit') if replaying else (gen_edit(r, m) if r.random() < .25 else None)
+    live = Live(ctx, m, edit)
+    E = live.E
     ctx.count('kind:' + ('mixed' if len(m['blocks']) > 1 else 'uniform'))
-    ctx.count('order:' + m['order'])
+    ctx.count('gen:' + str(m['kind']).split(':')[0])
+    ctx.count('order:' + str(m['order']))
     ctx.count('ids:' + str(m.get('id_style')))
-    ctx.count('second-order' if second else 'first-order')
-    ctx.count('unreferenced-nodes' if n_unref else 'all-nodes-referenced')
-    case0 = {'mesh': mg.to_json(m)}
+    ctx.count('eids:' + str(m.get('eid_style', 'random')))
+    ctx.count('second-order' if E.second else 'first-order')
+    ctx.count('unreferenced-nodes' if (~np.diag(E.A['nodal', False])).any() else 'all-nodes-referenced')
+    single = int(((E.A['elemental', False].sum(axis=1)) == 1).sum())
+    ctx.count('isolated-single-elements:' + ('0' if not single else '1' if single == 1 else '2+'))
+    ctx.count('elements:' + ('1' if len(E.eids) == 1 else '2-5' if len(E.eids) <= 5 else '6+'))
+    if edit:
+        ctx.count('stream:public-edit-before-first-query:' + edit[0])
+        if not live.applied:
+            # the editing means itself did not produce the intended content (C08's subject): not judged here
+            ctx.count('stream:public-edit-did-not-apply(not judged)')
+            live = Live(ctx, m, None)
+            E, edit = live.E, None
+    qs = queries(E, ctx.quick)
+    if replaying:
+        seq = [(tuple(q), sp) for q, sp in plan['seq']]
+        fresh_at = list(plan.get('fresh', []))
+    else:
+        seq = [(q, spell(r, q)) for q in r.sample(qs, len(qs))]
+        for _ in range(ctx.n(8, 12)):
+            i = r.randrange(len(seq))
+            j = r.choice([i + 1, r.randint(i + 1, len(seq))])
+            seq.insert(j, (seq[i][0], seq[i][1] if r.random() < .5 else spell(r, seq[i][0])))
+        fresh_at = sorted(r.sample(range(len(seq)), min(len(seq), ctx.n(6, 8))))
+    job = ModelJob(ctx, enc, [q for q, _ in seq])
+    try:
+        _check_history(ctx, m, d, enc, edit, live, seq, fresh_at, job)
+    finally:
+        if job.t is not None:
+            job.t.join()      # never leave a reader thread on the driver's pipe behind
 
-    def ask(line):
-        if ctx.driver is None:
-            return None
-        rep = ctx.driver.ask(line + ' ' + enc)
-        t = C.Toks(rep)
-        if t.tok() != 'ok':
-            raise RuntimeError(f'driver: {rep[:200]} for {line}')
-        return t
 
-    def report(what, opts, ok_oracle, impl, model_eq, nontrivial=True):
-        case = dict(case0, matrix=what, options=opts)
-        ctx.case((enc, what, repr(opts)), sample={'mesh': d, 'matrix': what, 'options': opts}, nontrivial=nontrivial)
+def _check_history(ctx, m, d, enc, edit, live, seq, fresh_at, job):
+    E = live.E
+    case0 = {'mesh': mg.to_json(m), 'edit': edit}
+    results = []
+
+    def case_of(upto, extra=None, shrink=None, sig=None):
+        hist = seq[:upto + 1]
+        if shrink and not getattr(ctx, 'c13_replaying', False) and all(f['signature'] != sig for f in ctx.failures):
+            hist = shrink_history(ctx, m, edit, hist, shrink)
+        return mk_case(hist, edit, extra)
+
+    def mk_case(hist, edit_, extra=None):
+        return dict(case0, edit=edit_, seq=[[list(q), sp] for q, sp in hist],
+                    calls=[spelled(q, sp) for q, sp in hist], **(extra or {}))
+
+    def first_query(q, sp, edited):
+        """the same call as the FIRST query of an independently built object with the same content (edited: of an
+        object that reached the content through the same public edits) -> (status, canonical value, judged right)"""
+        f = Live(ctx, m, edit if edited else None, E=None if (edit and not edited) else E, label='fresh')
+        st, c, _ = f.step(q, sp)
+        return st, c, st == 'ok' and any(judge(f.E, q, c))     # (an isolated vertex puts e2v outside the quantifier)
+
+    def classify(q, sp, i, what):
+        """slow path, only after a failure of call #i: is it the input alone, the public edit, or the preceding calls?"""
+        if not first_query(q, sp, False)[2]:
+            return what, mk_case([(q, sp)], None), \
+                '; the same call fails as the first query of a fresh object built from the same content'
+        if edit and not first_query(q, sp, True)[2]:
+            return prefix + what, mk_case([(q, sp)], edit), \
+                ('; it is correct as the first query of a fresh object built from the same content and wrong as the first '
+                 'query of an object that reached this content through the edits')
+        return prefix + 'history:' + what, case_of(i, shrink='value', sig=prefix + 'history:' + what), \
+            '; the same call as the first query of an equal object is correct: the preceding calls on the object matter'
+
+    prefix = 'after-public-edit:' if edit else ''
+    where = (f' after public connectivity edits ({edit[0]}) before the first query' if edit else '')
+    for i, (q, sp) in enumerate(seq):
+        what = q_what(q)
+        st, c, raw = live.step(q, sp)
+        ctx.case((enc, repr(edit), i, q, repr(sp)),
+                 sample={'mesh': d, 'matrix': what, 'options': q_opts(q), 'call': spelled(q, sp), 'position_in_history': i},
+                 nontrivial=nontrivial(E, q))
         ctx.count('matrix:' + what)
-        if not ok_oracle:
-            ctx.fail(f'{what}', f'{what}{opts} differs from its combinatorial definition on a {d["kind"]} mesh '
-                     f'({d["order"]} storage order, {d["id_style"]} ids)', case, impl)
-        if model_eq is False:
-            ctx.disagree(what, case, impl, 'model result differs')
-
-    for o1 in ([False, True] if True else [False]):
-        I = mg.quiet(fd.calculate_incidence_matrix, order1_only=o1)
-        I = dense(I).astype(bool)
-        B = brute(fd, o1)
-        t = ask(f'c13.inc {int(o1)}')
-        meq = None
-        if t is not None:
-            nN, nE = t.nat(), t.nat()
-            Mi = parse_pairs(t, (nN, nE))
-            meq = (Mi.shape == I.shape) and bool((Mi == I).all())
-        report('incidence', {'order1_only': o1}, I.shape == B.shape and bool((I == B).all()),
-               {'shape': I.shape, 'entries': np.argwhere(I).tolist()[:60]}, meq, nontrivial=I.any())
-        Ae_b = (B.T.astype(int) @ B.astype(int)) > 0
-        An_b = (B.astype(int) @ B.T.astype(int)) > 0
-        for mode, Ab in (('elemental', Ae_b), ('nodal', An_b)):
-            f = fd.calculate_adjacency_matrix_element if mode == 'elemental' else fd.calculate_adjacency_matrix_node
-            A = dense(mg.quiet(f, order1_only=o1)).astype(bool)
-            t = ask(f'c13.adj {mode} {int(o1)}')
-            meq = None
-            if t is not None:
-                n = t.nat()
-                meq = A.shape == (n, n) and bool((parse_pairs(t, (n, n)) == A).all())
-            report('adjacency-' + mode, {'order1_only': o1}, A.shape == Ab.shape and bool((A == Ab).all()),
-                   {'entries': np.argwhere(A).tolist()[:60]}, meq, nontrivial=(A & ~np.eye(len(A), dtype=bool)).any())
-            # Laplacian
-            L = dense(mg.quiet(fd.calculate_laplacian_matrix, mode=mode, order1_only=o1)).astype(int)
-            off = ~np.eye(len(L), dtype=bool)
-            deg = (Ab & off).sum(axis=1)
-            ok = bool((L.sum(axis=1) == 0).all()) and bool((L[off] == Ab[off].astype(int)).all()) \
-                and bool((np.diag(L) == -deg).all())
-            t = ask(f'c13.lap {mode} {int(o1)}')
-            meq = None
-            if t is not None:
-                n = t.nat()
-                meq = L.shape == (n, n) and bool((parse_triples(t, n) == L).all())
-            report('laplacian-' + mode, {'order1_only': o1}, ok, {'rows': L.tolist()[:8]}, meq, nontrivial=L.any())
-            # edge gradient
-            Gm = dense(mg.quiet(fd.calculate_edge_gradient_matrix, mode=mode, order1_only=o1)).astype(int) \
-                if (Ab & off).any() else None
-            if Gm is not None:
-                rows = []
-                ok = True
-                for row in Gm:
-                    p, q = np.flatnonzero(row == 1), np.flatnonzero(row == -1)
-                    if len(p) != 1 or len(q) != 1 or np.count_nonzero(row) != 2:
-                        ok = False
-                        break
-                    rows.append((int(p[0]), int(q[0])))
-                und = sorted((int(a), int(b)) for a, b in np.argwhere(Ab & off) if a < b)
-                ok = ok and sorted(rows) == und
-                t = ask(f'c13.grad {mode} {int(o1)}')
-                meq = None
-                if t is not None:
-                    n = t.nat()
-                    k = t.nat()
-                    me = sorted((t.nat(), t.nat()) for _ in range(k))
-                    meq = me == sorted(rows)
-                report('edge-gradient-' + mode, {'order1_only': o1}, ok, {'rows': rows[:40]}, meq)
-        # n-hop
-        for mode in ('elemental', 'nodal'):
-            if mode == 'elemental' and o1:
+        results.append((st, c))
+        desc = (f'{spelled(q, sp)} as call #{i} of a history on one object{where} ({d["kind"]} mesh, {d["order"]} storage '
+                f'order, {d["id_style"]} ids)')
+        if st != 'ok':
+            sig, cs, why = classify(q, sp, i, f'{"raises" if st == "raises" else "malformed-result"}:{what}')
+            ctx.fail(sig, f'{desc}: {c}{why}', cs, c)
+            continue
+        ok, outside = judge(E, q, c)
+        if outside:
+            # an isolated vertex is outside the property's quantifier for e2v: separate labelled stream, never `fail`
+            ctx.count('stream:e2v-with-isolated-vertex(outside quantifier)')
+            if not ok:
+                ctx.count('note:e2v spurious column for isolated vertex (F13)')
+            ok = True
+        if not ok:
+            sig, cs, why = classify(q, sp, i, what)
+            ctx.fail(sig, f'{what}{q_opts(q)} differs from its combinatorial definition: {desc}{why}', cs, brief(c))
+        elif i in fresh_at:
+            ctx.count('fresh-object-cross-check')
+            fst, fc, fok = first_query(q, sp, False)
+            if not fok:
+                ctx.fail(what if fst == 'ok' else f'{"raises" if fst == "raises" else "malformed-result"}:{what}',
+                         f'{what}{q_opts(q)} differs from its combinatorial definition: {spelled(q, sp)} as the first query of '
+                         f'a fresh object ({d["kind"]} mesh, {d["order"]} storage order, {d["id_style"]} ids)',
+                         mk_case([(q, sp)], None), fc if fst != 'ok' else brief(fc))
+            elif not same(fc, c):
+                ctx.count('note:live and fresh result differ in a detail the property does not state')
+        # user data after every call
+        if not live.user_reported:
+            ch = live.user_changed()
+            if ch:
+                live.user_reported = True
+                ctx.fail(f'{prefix}user-data-changed:{what}', f'{desc} modified the user data of the object in place: {ch}',
+                         case_of(i, {'check': 'user-data'}, shrink='user', sig=f'{prefix}user-data-changed:{what}'), ch)
+    # every matrix handed out earlier must still be what it was
+    for (i, q, c0, now) in live.held_changed()[:3]:
+        culprit = locate_culprit(ctx, m, edit, seq, i)
+        ctx.fail(f'{prefix}returned-matrix-modified:{q_what(q)}',
+                 f'the {q_what(q)}{q_opts(q)} matrix returned by call #{i} ({spelled(q, seq[i][1])}) of a history on one object'
+                 f'{where} was modified in place by a later call'
+                 + (f' (call #{culprit}: {spelled(*seq[culprit])})' if culprit is not None else '')
+                 + f' ({d["kind"]} mesh)', case_of(culprit if culprit is not None else len(seq) - 1, {'check': 'held'},
+                                                  shrink='held', sig=f'{prefix}returned-matrix-modified:{q_what(q)}'),
+                 {'at_return': brief(c0), 'now': brief(now)})
+    # correspondence
+    replies = job.wait()
+    if replies is not None:
+        for i, (q, sp) in enumerate(seq):
+            st, c = results[i]
+            if st != 'ok':
                 continue
-            Ab = Ae_b if mode == 'elemental' else An_b
-            for hops in ((1, 2, 3) if ctx.quick else (1, 2, 3, 4)):
-                for sl in (True, False):
-                    R = dense(mg.quiet(fd.calculate_n_hop_adj, mode=mode, n_hop=hops, include_self_loop=sl,
-                                       order1_only=o1)).astype(int)
-                    want = reach(Ab, hops).astype(int) - (0 if sl else np.eye(len(Ab), dtype=int))
-                    isolated = bool((~np.diag(Ab)).any())
-                    ok = R.shape == want.shape and bool((R == want).all())
-                    t = ask(f'c13.nhop {mode} {hops} {int(sl)} {int(o1)}')
-                    meq = None
-                    if t is not None:
-                        n = t.nat()
-                        meq = R.shape == (n, n) and bool((parse_triples(t, n) == R).all())
-                    report('n-hop-' + mode, {'n_hop': hops, 'include_self_loop': sl, 'order1_only': o1}, ok,
-                           {'rows': R.tolist()[:8]}, meq, nontrivial=(reach(Ab, hops) & ~np.eye(len(Ab), dtype=bool)).any())
-    # e2v
-    for mode, Ab in (('elemental', None), ('nodal', None)):
-        B = brute(fd, False)
-        Ab = ((B.T.astype(int) @ B.astype(int)) > 0) if mode == 'elemental' else ((B.astype(int) @ B.T.astype(int)) > 0)
-        for sl in (False,):   # include_self_loop=True raises AttributeError in femio (csr has no .row): unsupported option
-            E = mg.quiet(fd.calculate_e2v_matrix, mode=mode, include_self_loop=sl).tocoo()
-            n = len(Ab)
-            off = ~np.eye(n, dtype=bool)
-            directed = np.argwhere(Ab if sl else (Ab & off))
-            srcs = sorted(int(a) for a, _ in directed)
-            cols_ok = sorted(E.col.tolist()) == list(range(E.shape[1])) and bool((E.data == 1).all())
-            isolated = bool((~np.diag(Ab)).any())
-            ok = cols_ok and E.shape == (n, len(directed)) and sorted(E.row.tolist()) == srcs
-            t = ask(f'c13.e2v {mode} {int(sl)}')
-            meq = None
-            if t is not None:
-                mn, k = t.nat(), t.nat()
-                ms = t.lst(t.nat)
-                meq = (mn, k) == E.shape and ms == sorted(E.row.tolist())
-            if isolated and not sl:
-                # an isolated vertex is outside the property's quantifier: separate labelled stream, never `fail`
-                ctx.count('stream:e2v-with-isolated-vertex(outside quantifier)')
-                if not ok:
-                    ctx.count('note:e2v spurious column for isolated vertex (F13)')
-                ok = True
-            report('e2v-' + mode, {'include_self_loop': sl}, ok, {'shape': E.shape, 'rows': E.row.tolist()[:40]}, meq)
+            mc = model_canon(q, replies[model_line(q)])
+            eq = (c[1:3] == mc[1:3]) if q[0] == 'e2v' else same(c, mc)
+            if not eq:
+                ctx.disagree(q_what(q), case_of(i), brief(c), brief(mc))
+
+
+def ddmin(prefix, test, budget=70):
+    """delta-debugging light: drop chunks of the history prefix while `test(prefix)` still fails"""
+    cur = list(prefix)
+    size = max(1, len(cur) // 2)
+    while cur and budget > 0:
+        i, progressed = 0, False
+        while i < len(cur) and budget > 0:
+            cand = cur[:i] + cur[i + size:]
+            budget -= 1
+            if test(cand):
+                cur, progressed = cand, True
+            else:
+                i += size
+        if size == 1 and not progressed:
+            break
+        size = max(1, size // 2)
+    return cur
+
+
+def shrink_history(ctx, m, edit, seq, kind, held_index=None):
+    """slow path, only for the first failure of a signature: the shortest history (found by ddmin) ending in the same
+    call that still shows the same kind of failure ('value' of the last call / 'user' data changed / a 'held' matrix
+    modified) on a new object"""
+    E0 = []
+
+    def test(prefix):
+        try:
+            lv = Live(ctx, m, edit, E=E0[0] if E0 else None, label='shrink')
+            if not E0:
+                E0.append(lv.E)
+            hist = list(prefix) + [seq[-1]]
+            for q, sp in hist:
+                st, c, _ = lv.step(q, sp)
+            if kind == 'value':
+                return st != 'ok' or not any(judge(lv.E, hist[-1][0], c))
+            if kind == 'user':
+                return bool(lv.user_changed())
+            return bool(lv.held_changed())
+        except Exception:
+            return False
+    try:
+        if not test(seq[:-1]):
+            return seq
+        return ddmin(seq[:-1], test) + [seq[-1]]
+    except Exception:
+        return seq
+
+
+def locate_culprit(ctx, m, edit, seq, held_index):
+    """slow path, only after a failure: re-run the history on a new object and find the first later call after
+    which the result of call #held_index no longer has the value it had at return"""
+    try:
+        lv = Live(ctx, m, edit, label='locate')
+        for i, (q, sp) in enumerate(seq):
+            lv.step(q, sp)
+            if i > held_index and any(h[0] == held_index for h in lv.held_changed()):
+                return i
+    except Exception:
+        pass
+    return None
 
 
 def run(ctx):
     for name, j in C.corpus_cases(PROP):
         ctx.count('corpus')
         check_mesh(ctx, mg.from_json(j['mesh']) if 'mesh' in j else mg.from_json(j))
-    for k in range(ctx.n(150, 1500)):
+    for k in range(ctx.n(130, 1300)):
         check_mesh(ctx, gen_mesh(ctx, k))
 
 
 def replay(ctx, obj):
-    m = mg.from_json(obj['input']['mesh'])
+    inp = obj['input']
+    m = mg.from_json(inp['mesh'])
     m.setdefault('id_style', '?')
     before = len(ctx.failures)
-    check_mesh(ctx, m)
+    ctx.c13_replaying = True
+    if 'seq' in inp:
+        check_mesh(ctx, m, plan={'edit': inp.get('edit'), 'seq': inp['seq'], 'fresh': []})
+    else:       # replay files written before the live-object sequences existed: mesh only
+        check_mesh(ctx, m)
     return {'failures': ctx.failures[before:][:5], 'disagreements': ctx.disagreements[:5],
             'fails': len(ctx.failures) > before}
